@@ -65,6 +65,7 @@ type Exec struct {
 	axioms  []string // quantified facts about the entry heap (prunable)
 	extra   []string // extra assertions (ground instances) global to this function
 	isInit  bool
+	lenient bool
 	covers  int
 	callDepth int
 	entryInv map[string]string // invariant label -> term at entry
@@ -287,10 +288,11 @@ func (ex *Exec) effectiveTags(kind string, tags []string) []string {
 			add(ex.fnTags()...)
 		}
 	case "loop-frame", "call-inv":
-		add("C13")
+		add("C13", "C12")
 		add(ex.fnTags()...)
 	case "frame", "global-inv", "init-inv":
-		add("C13")
+		// frames: nothing shared is written outside the declared, Once-guarded state (C12, C13)
+		add("C13", "C12")
 	}
 	sort.Strings(out)
 	return out
@@ -454,6 +456,13 @@ func (ex *Exec) zeroOfType(st *State, t types.Type) SV {
 		case SAIA:
 			return SV{K: KArray, T: T(SAIA, "((as const (Array Int Any)) nilAny)")}
 		}
+	case KStruct:
+		stt := t.Underlying().(*types.Struct)
+		sv := SV{K: KStruct}
+		for i := 0; i < stt.NumFields(); i++ {
+			sv.Fields = append(sv.Fields, ex.zeroOfType(st, stt.Field(i).Type()))
+		}
+		return sv
 	case KFunc:
 		return SV{K: KOpaque, Why: "nil func"}
 	case KPtr:
@@ -491,8 +500,24 @@ func (ex *Exec) constVal(st *State, c *ssa.Const) SV {
 
 func (p *Program) contractName(fn *ssa.Function) string {
 	if fn.Parent() != nil {
-		// closure: Parent$k
+		// closure: Parent$writes(g) if it stores to exactly one package-level
+		// variable (stable under reordering of literals), else Parent$k
 		pn := p.contractName(fn.Parent())
+		written := map[string]bool{}
+		for _, b := range fn.Blocks {
+			for _, in := range b.Instrs {
+				if st, ok := in.(*ssa.Store); ok {
+					if g, ok := st.Addr.(*ssa.Global); ok {
+						written[g.Name()] = true
+					}
+				}
+			}
+		}
+		if len(written) == 1 {
+			for g := range written {
+				return pn + "$writes(" + g + ")"
+			}
+		}
 		nm := fn.Name() // e.g. mapping$1
 		if k := strings.LastIndex(nm, "$"); k >= 0 {
 			return pn + nm[k:]
@@ -788,7 +813,21 @@ func (ex *Exec) runBlock(st *State, b *ssa.BasicBlock, i int) {
 			ex.oblige(st, "panic", fmt.Sprintf("unreachable@%s", ex.posOf(v)), TFalse, ex.fnTags(), v, "explicit panic must be unreachable")
 			return
 		default:
-			forks := ex.step(st, in)
+			var forks []*State
+			if ex.lenient {
+				func() {
+					defer func() {
+						if r := recover(); r != nil {
+							if val, ok := in.(ssa.Value); ok {
+								st.vals[val] = SV{K: KOpaque, Why: fmt.Sprint(r)}
+							}
+						}
+					}()
+					forks = ex.step(st, in)
+				}()
+			} else {
+				forks = ex.step(st, in)
+			}
 			if forks != nil {
 				// instruction forked the state (call with split, append, ...): continue each
 				for _, s := range forks {
@@ -1040,7 +1079,9 @@ func (ex *Exec) atReturn(st *State, ret *ssa.Return) {
 	}
 	ctx := &specCtx{mode: "exit", results: results}
 	if ex.isInit {
-		ex.p.recordInit(ex, st)
+		if !ex.lenient {
+			ex.p.recordInit(ex, st)
+		}
 		return
 	}
 	if ex.fc != nil {
